@@ -618,3 +618,315 @@ Proof.
 Qed.
 End from_start.
 End traces.
+
+(* ------------------------------------------------------------------ the output only grows *)
+(* the process that continues after the step; a printed label is attributed to it in `out` *)
+Definition ev_actor (e : event) : pid := List.last (ev_pids e) [].
+Definition ev_out (e : event) : list (pid * string) := map (fun l => (ev_actor e, l)) (ev_labels e).
+(* the labels of process p in an output (oldest first) *)
+Definition labels_of (p : pid) (o : list (pid * string)) : list string :=
+  map snd (filter (fun x => bool_decide (fst x = p)) o).
+
+Section output.
+Context (md : exec_mode) (D : tenv) (F : list fundef).
+
+Lemma step_out c ch c' : step md D F c ch = SStep c' ->
+  rev (out c') = rev (out c) ++ ev_out (event_of md D c c' ch) /\
+  ev_actor (event_of md D c c' ch) ∈ ev_pids (event_of md D c c' ch).
+Proof.
+  intros Hstep. destruct (step_facts D F md c ch c' Hstep) as (_ & [Ha Ho] & _).
+  assert (ev_actor (event_of md D c c' ch) = ch_actor ch) as Hact.
+  { unfold ev_actor. rewrite ev_pids_event_of. by destruct ch. }
+  split; [|by rewrite Hact].
+  rewrite Ho, rev_app_distr, <- map_rev, rev_involutive. unfold ev_out. by rewrite Hact.
+Qed.
+
+Theorem out_grows c tr cf : steps md D F c tr cf -> rev (out cf) = rev (out c) ++ flat_map ev_out tr.
+Proof.
+  induction 1 as [c|c ch c' tr c'' Hstep _ IH]; cbn; [by rewrite app_nil_r|].
+  apply step_out in Hstep as [Hstep _]. by rewrite IH, Hstep, <- app_assoc.
+Qed.
+
+Lemma steps_actor c tr cf e : steps md D F c tr cf -> e ∈ tr -> ev_actor e ∈ ev_pids e.
+Proof.
+  induction 1 as [c|c ch c' tr c'' Hstep _ IH]; intros He; [by apply elem_of_nil in He|].
+  apply elem_of_cons in He as [->|He]; [|auto]. by apply step_out in Hstep as [_ ?].
+Qed.
+
+Lemma map_snd_ev_out tr : map snd (flat_map ev_out tr) = flat_map ev_labels tr.
+Proof.
+  induction tr as [|e tr IH]; cbn; [done|]. rewrite map_app, IH. f_equal.
+  unfold ev_out. rewrite map_map. cbn. apply map_id.
+Qed.
+
+Theorem labels_grow c tr cf : steps md D F c tr cf -> labels cf = labels c ++ flat_map ev_labels tr.
+Proof.
+  intros H. apply out_grows in H. unfold labels. rewrite <- !map_rev, H, map_app. by rewrite map_snd_ev_out.
+Qed.
+
+Lemma labels_of_ev_out p e : labels_of p (ev_out e) = if bool_decide (ev_actor e = p) then ev_labels e else [].
+Proof.
+  unfold labels_of, ev_out. induction (ev_labels e) as [|l ls IH]; cbn.
+  - by destruct (bool_decide _).
+  - destruct (bool_decide (ev_actor e = p)) eqn:Hb; cbn; [by rewrite IH|done].
+Qed.
+
+(* one process's labels appear in the output in the order of that process's print steps *)
+Theorem proc_labels_in_program_order p c tr cf : steps md D F c tr cf ->
+  labels_of p (rev (out cf)) =
+  labels_of p (rev (out c)) ++ flat_map (fun e => if bool_decide (ev_actor e = p) then ev_labels e else []) tr.
+Proof.
+  intros H. apply out_grows in H. rewrite H. unfold labels_of at 1. rewrite filter_app, map_app. f_equal.
+  clear H. induction tr as [|e tr IH]; cbn; [done|].
+  rewrite filter_app, map_app, IH. f_equal. apply labels_of_ev_out.
+Qed.
+End output.
+
+(* ------------------------------------------------------------------ happens-before *)
+(* generating edges between positions of a trace:
+   - program order: the two events share a process identifier (a rendezvous or a control hand-over
+     is an event of both participants);
+   - spawn: the earlier event created the process that takes the later one;
+   - communication (buffered channel): the later event receives on k, the earlier one is the
+     latest send on k before it. *)
+Inductive hb1 (tr : list event) (j i : nat) : Prop :=
+| hb_prog q ej ei :
+    tr !! j = Some ej -> tr !! i = Some ei -> (j < i)%nat -> q ∈ ev_pids ej -> q ∈ ev_pids ei -> hb1 tr j i
+| hb_spawn q ej ei :
+    tr !! j = Some ej -> tr !! i = Some ei -> q ∈ ev_spawned ej -> q ∈ ev_pids ei -> hb1 tr j i
+| hb_comm k ej ei :
+    tr !! j = Some ej -> tr !! i = Some ei -> (j < i)%nat -> ev_send ej = Some k -> ev_recv ei = Some k ->
+    (forall j' e', (j < j' < i)%nat -> tr !! j' = Some e' -> ev_send e' <> Some k) -> hb1 tr j i.
+Definition hb (tr : list event) : nat -> nat -> Prop := tc (hb1 tr).
+
+(* position, in the sequence of all labels of the trace, of the n-th label of event i *)
+Definition print_pos (tr : list event) (i n : nat) : nat :=
+  (length (concat (map ev_labels (take i tr))) + n)%nat.
+
+Lemma print_pos_lookup tr i e n l : tr !! i = Some e -> ev_labels e !! n = Some l ->
+  concat (map ev_labels tr) !! print_pos tr i n = Some l.
+Proof.
+  intros He Hl. unfold print_pos.
+  assert (concat (map ev_labels tr) =
+          concat (map ev_labels (take i tr)) ++ ev_labels e ++ concat (map ev_labels (drop (S i) tr))) as ->.
+  { rewrite <- (take_drop_middle tr i e He) at 1. by rewrite map_app, concat_app. }
+  rewrite lookup_app_r by lia.
+  replace (_ + n - _)%nat with n by lia. by apply lookup_app_l_Some.
+Qed.
+
+Lemma prefix_labels_mono (tr : list event) a b : (a <= b)%nat ->
+  (length (concat (map ev_labels (take a tr))) <= length (concat (map ev_labels (take b tr))))%nat.
+Proof.
+  intros Hab. replace (take a tr) with (take a (take b tr)) by (rewrite take_take; f_equal; lia).
+  rewrite <- (take_drop a (take b tr)) at 2. rewrite map_app, concat_app, app_length. lia.
+Qed.
+
+Lemma print_pos_lt tr j ej m i n : tr !! j = Some ej -> (m < length (ev_labels ej))%nat -> (j < i)%nat ->
+  (print_pos tr j m < print_pos tr i n)%nat.
+Proof.
+  intros Hj Hm Hji. unfold print_pos. pose proof (prefix_labels_mono tr (S j) i ltac:(lia)) as Hle.
+  rewrite (take_S_r _ _ _ Hj), map_app, concat_app, app_length in Hle. cbn in Hle. rewrite app_nil_r in Hle. lia.
+Qed.
+
+Lemma print_pos_surj tr : forall pos l, concat (map ev_labels tr) !! pos = Some l ->
+  exists i e n, tr !! i = Some e /\ ev_labels e !! n = Some l /\ pos = print_pos tr i n.
+Proof.
+  induction tr as [|e tr IH]; intros pos l H; cbn in H; [done|].
+  apply lookup_app_Some in H as [H|[Hle H]].
+  - exists 0%nat, e, pos. done.
+  - apply IH in H as (i & e' & n & Hi & Hn & Hpos). exists (S i), e', n. split_and!; [done..|].
+    unfold print_pos in *. cbn. rewrite app_length. lia.
+Qed.
+
+Section linear_extension.
+Context (md : exec_mode) (D : tenv) (F : list fundef).
+Context (c0 : config) (tr : list event) (cf : config).
+Context (Hrun : steps md D F c0 tr cf) (Hinv : causal_inv c0).
+
+Lemma hb1_lt j i : hb1 tr j i -> (j < i)%nat.
+Proof. destruct 1; try done. by eapply (spawn_before md D F c0 tr cf Hrun Hinv). Qed.
+
+(* happens-before only relates an earlier event of the run to a later one *)
+Theorem hb_lt j i : hb tr j i -> (j < i)%nat.
+Proof. induction 1 as [j i H|j i l H _ IH]; apply hb1_lt in H; lia. Qed.
+
+(* the final output is the initial one followed by the labels of the events in trace order; the
+   position of every print is determined, every position is a print, and positions respect
+   happens-before (and the order of the labels of one event): `labels cf` is a linear extension
+   of the causal order restricted to print events *)
+Theorem prints_respect_causality :
+  labels cf = labels c0 ++ concat (map ev_labels tr) /\
+  (forall i e n l, tr !! i = Some e -> ev_labels e !! n = Some l ->
+     labels cf !! (length (labels c0) + print_pos tr i n)%nat = Some l) /\
+  (forall pos l, labels cf !! (length (labels c0) + pos)%nat = Some l ->
+     exists i e n, tr !! i = Some e /\ ev_labels e !! n = Some l /\ pos = print_pos tr i n) /\
+  (forall j ej m i ei n, tr !! j = Some ej -> tr !! i = Some ei ->
+     (m < length (ev_labels ej))%nat -> (n < length (ev_labels ei))%nat ->
+     hb tr j i \/ (j = i /\ (m < n)%nat) -> (print_pos tr j m < print_pos tr i n)%nat).
+Proof.
+  pose proof (labels_grow md D F c0 tr cf Hrun) as Hl. rewrite flat_map_concat_map in Hl.
+  split_and!; [done|..].
+  - intros i e n l He Hn. rewrite Hl, lookup_app_r by lia. replace (_ + _ - _)%nat with (print_pos tr i n) by lia.
+    by eapply print_pos_lookup.
+  - intros pos l H. rewrite Hl, lookup_app_r in H by lia. replace (_ + _ - _)%nat with pos in H by lia.
+    by apply print_pos_surj.
+  - intros j ej m i ei n Hj Hi Hm Hn [Hhb|[-> Hmn]].
+    + apply hb_lt in Hhb. by eapply print_pos_lt.
+    + unfold print_pos. lia.
+Qed.
+End linear_extension.
+
+(* ------------------------------------------------------------------ init_config satisfies the invariant *)
+Lemma fold_left_inv {A B} (P : B -> Prop) (f : B -> A -> B) (l : list A) (b : B) :
+  P b -> (forall b a, P b -> P (f b a)) -> P (fold_left f l b).
+Proof. revert b. induction l as [|a l IH]; cbn; auto. Qed.
+
+Theorem init_causal_inv (p : program) : causal_inv (init_config p).
+Proof.
+  unfold init_config. split; cbn [procs chans].
+  - intros k. unfold buf. cbn [chans]. unfold bufm.
+    match goal with |- match ?m !! k with _ => _ end = None =>
+      assert (forall k st, m !! k = Some st -> st = empty_chan) as H end.
+    { apply (fold_left_inv (fun m : gmap cid chan_st => forall k st, m !! k = Some st -> st = empty_chan)).
+      - intros k' st. by rewrite lookup_empty.
+      - intros m [old new] Hm k' st. destruct (chan new) as [k0|]; [|apply Hm].
+        intros [[_ <-]|[_ ?]]%lookup_insert_Some; [done|by eapply Hm]. }
+    destruct (_ !! k) as [st|] eqn:Hk; [|done]. by rewrite (H _ _ Hk).
+  - match goal with |- forall q pr n rest, ?m !! q = Some pr -> _ =>
+      assert (forall q, is_Some (m !! q) -> length q = 1%nat) as H end.
+    { apply (fold_left_inv (fun m : gmap pid proc => forall q, is_Some (m !! q) -> length q = 1%nat)).
+      - intros q [x Hx]. by rewrite lookup_empty in Hx.
+      - intros m [i [pr ini]] Hm q [x Hx]. apply lookup_insert_Some in Hx as [[<- _]|[_ Hx]]; [done|]. apply Hm. eauto. }
+    intros q pr n rest Hq Hq'. apply H in Hq'. rewrite app_length in Hq'. cbn in Hq'.
+    assert (length q = 1%nat) by (apply H; eauto). lia.
+Qed.
+
+(* ------------------------------------------------------------------ the relation the check computes *)
+(* lib/vlib/runsuite.py `causal_print_order` generates happens-before from the LATEST earlier event
+   that involves an acting process (as actor or as the spawned one: `last_of`) and from the latest
+   earlier send on the received channel (`sender`).  Same transitive closure as `hb` (hb_py_equiv). *)
+Definition involves (q : pid) (e : event) : Prop := q ∈ ev_pids e \/ q ∈ ev_spawned e.
+Inductive hb1_py (tr : list event) (j i : nat) : Prop :=
+| py_last q ej ei :
+    tr !! j = Some ej -> tr !! i = Some ei -> (j < i)%nat -> q ∈ ev_pids ei -> involves q ej ->
+    (forall j' e', (j < j' < i)%nat -> tr !! j' = Some e' -> ~ involves q e') -> hb1_py tr j i
+| py_comm k ej ei :
+    tr !! j = Some ej -> tr !! i = Some ei -> (j < i)%nat -> ev_send ej = Some k -> ev_recv ei = Some k ->
+    (forall j' e', (j < j' < i)%nat -> tr !! j' = Some e' -> ev_send e' <> Some k) -> hb1_py tr j i.
+
+Lemma latest_below (f : nat -> bool) j i : (j < i)%nat -> f j = true ->
+  exists j', (j <= j' < i)%nat /\ f j' = true /\ forall x, (j' < x < i)%nat -> f x = false.
+Proof.
+  induction i as [|i IH]; [lia|]. intros Hji Hj.
+  destruct (f i) eqn:Hi.
+  - exists i. split; [lia|]. split; [done|]. intros; lia.
+  - destruct (decide (j = i)) as [->|Hne]; [congruence|].
+    destruct IH as (j' & Hj' & Hf & Hlater); [lia|done|]. exists j'. split; [lia|]. split; [done|].
+    intros x Hx. destruct (decide (x = i)) as [->|]; [done|]. apply Hlater. lia.
+Qed.
+
+Section py_equiv.
+Context (md : exec_mode) (D : tenv) (F : list fundef).
+Context (c0 : config) (tr : list event) (cf : config).
+Context (Hrun : steps md D F c0 tr cf) (Hinv : causal_inv c0).
+
+Definition involvesb (q : pid) (x : nat) : bool :=
+  match tr !! x with Some e => bool_decide (involves q e) | None => false end.
+
+Lemma involves_chain q : forall d j ej i ei, (i - j <= d)%nat ->
+  tr !! j = Some ej -> tr !! i = Some ei -> (j < i)%nat -> involves q ej -> q ∈ ev_pids ei -> tc (hb1_py tr) j i.
+Proof.
+  induction d as [|d IH]; intros j ej i ei Hd Hj Hi Hji Hqj Hqi; [lia|].
+  destruct (latest_below (involvesb q) j i Hji) as (j' & Hj' & Hf & Hlater).
+  { unfold involvesb. rewrite Hj. by apply bool_decide_eq_true. }
+  unfold involvesb in Hf. destruct (tr !! j') as [ej'|] eqn:Hej'; [|done]. apply bool_decide_eq_true in Hf.
+  assert (hb1_py tr j' i) as Hedge.
+  { eapply (py_last tr j' i q); try done; [lia|]. intros x e' Hx He' Hinv'.
+    specialize (Hlater x Hx). unfold involvesb in Hlater. rewrite He' in Hlater.
+    by apply bool_decide_eq_false in Hlater. }
+  destruct (decide (j' = j)) as [->|Hne]; [by apply tc_once|].
+  eapply tc_r; [|exact Hedge]. eapply (IH j ej j' ej'); try done; [lia|lia|].
+  destruct Hf as [?|Hsp]; [done|]. exfalso.
+  (* q was spawned at j' although it was involved earlier, at j *)
+  destruct Hqj as [Hact|Hsp0].
+  - pose proof (spawn_before md D F c0 tr cf Hrun Hinv j' ej' j ej q Hej' Hj Hsp Hact). lia.
+  - pose proof (spawned_once md D F c0 tr cf Hrun Hinv j ej j' ej' q Hj Hej' Hsp0 Hsp). lia.
+Qed.
+
+Theorem hb_py_equiv j i : tc (hb1_py tr) j i <-> hb tr j i.
+Proof.
+  split.
+  - apply (tc_congruence (fun x : nat => x)). clear j i. intros j i [q ej ei Hj Hi Hji Hqi [Hq|Hq] _|k ej ei Hj Hi Hji Hs Hr Hl].
+    + by eapply hb_prog.
+    + by eapply hb_spawn.
+    + by eapply hb_comm.
+  - intros H. induction H as [j i H|j i l H _ IH].
+    + destruct H as [q ej ei Hj Hi Hji Hqj Hqi|q ej ei Hj Hi Hqj Hqi|k ej ei Hj Hi Hji Hs Hr Hl].
+      * eapply (involves_chain q _ j ej i ei); try done. by left.
+      * eapply (involves_chain q _ j ej i ei); try done; [|by right].
+        by eapply (spawn_before md D F c0 tr cf Hrun Hinv).
+      * apply tc_once. by eapply py_comm.
+    + eapply tc_transitive; [|exact IH]. clear IH.
+      destruct H as [q ej ei Hj Hi Hji Hqj Hqi|q ej ei Hj Hi Hqj Hqi|k ej ei Hj Hi Hji Hs Hr Hl].
+      * eapply (involves_chain q _ j ej i ei); try done. by left.
+      * eapply (involves_chain q _ j ej i ei); try done; [|by right].
+        by eapply (spawn_before md D F c0 tr cf Hrun Hinv).
+      * apply tc_once. by eapply py_comm.
+Qed.
+End py_equiv.
+
+(* ------------------------------------------------------------------ C04, causal half: the packaged statement *)
+Definition trace_causal_stmt (md : exec_mode) (D : tenv) (F : list fundef)
+           (c0 : config) (tr : list event) (cf : config) : Prop :=
+  (* communication: a receive on k follows its send on k, nothing else touches k in between *)
+  (forall i e k, tr !! i = Some e -> ev_recv e = Some k ->
+     (exists j ej, (j < i)%nat /\ tr !! j = Some ej /\ ev_send ej = Some k /\
+        forall j' e', (j < j' < i)%nat -> tr !! j' = Some e' -> ev_send e' <> Some k /\ ev_recv e' <> Some k) \/
+     (exists ci, steps md D F c0 (take i tr) ci /\ closed_empty ci k)) /\
+  (* spawn: every actor is a start process or was spawned earlier; after its (unique) spawn *)
+  (forall i e q, tr !! i = Some e -> q ∈ ev_pids e ->
+     is_Some (procs c0 !! q) \/ exists j ej, (j < i)%nat /\ tr !! j = Some ej /\ q ∈ ev_spawned ej) /\
+  (forall j ej i ei q, tr !! j = Some ej -> tr !! i = Some ei -> q ∈ ev_spawned ej -> q ∈ ev_pids ei -> (j < i)%nat) /\
+  (forall j ej i ei q, tr !! j = Some ej -> tr !! i = Some ei -> q ∈ ev_spawned ej -> q ∈ ev_spawned ei -> j = i) /\
+  (forall i e q, tr !! i = Some e -> q ∈ ev_spawned e -> procs c0 !! q = None) /\
+  (* output: grows by the labels of the events, in trace order, attributed to the acting process *)
+  rev (out cf) = rev (out c0) ++ flat_map ev_out tr /\
+  (forall e, e ∈ tr -> ev_actor e ∈ ev_pids e) /\
+  (forall p, labels_of p (rev (out cf)) =
+             labels_of p (rev (out c0)) ++ flat_map (fun e => if bool_decide (ev_actor e = p) then ev_labels e else []) tr) /\
+  (* happens-before goes forward in the trace *)
+  (forall j i, hb tr j i -> (j < i)%nat).
+
+Theorem trace_causal md D F c0 tr cf :
+  steps md D F c0 tr cf -> causal_inv c0 -> trace_causal_stmt md D F c0 tr cf.
+Proof.
+  intros Hrun Hinv. unfold trace_causal_stmt. split_and!.
+  - by eapply recv_has_send.
+  - by eapply actor_known.
+  - by eapply spawn_before.
+  - by eapply spawned_once.
+  - by eapply spawned_new.
+  - by eapply out_grows.
+  - intros e. by eapply steps_actor.
+  - intros p. by eapply proc_labels_in_program_order.
+  - by eapply hb_lt.
+Qed.
+
+(* for what `exec_trace` returns, from the initial configuration of any program, any schedule
+   oracle, any fuel, in each of the three modes *)
+Theorem trace_causal_exec md (p : program) fuel pick r tr :
+  exec_trace fuel pick md (p_types p) (p_funs p) (init_config p) [] = (r, tr) ->
+  steps md (p_types p) (p_funs p) (init_config p) tr (res_config r) /\
+  trace_causal_stmt md (p_types p) (p_funs p) (init_config p) tr (res_config r) /\
+  labels (res_config r) = concat (map ev_labels tr) /\
+  (forall j ej m i ei n, tr !! j = Some ej -> tr !! i = Some ei ->
+     (m < length (ev_labels ej))%nat -> (n < length (ev_labels ei))%nat ->
+     tc (hb1_py tr) j i \/ (j = i /\ (m < n)%nat) -> (print_pos tr j m < print_pos tr i n)%nat).
+Proof.
+  intros H. apply exec_trace_run in H as (es & -> & Hrun). cbn [rev app].
+  pose proof (init_causal_inv p) as Hinv.
+  destruct (prints_respect_causality md _ _ _ es _ Hrun Hinv) as (Hl & _ & _ & Hext).
+  split_and!; [done|by apply trace_causal|done|].
+  intros j ej m i ei n Hj Hi Hm Hn [Hhb|Hsame]; eapply Hext; eauto.
+  left. by eapply hb_py_equiv.
+Qed.
